@@ -415,3 +415,46 @@ def even_norm(t, _memo=None):
         r = (h,) + tuple(even_norm(x, _memo) if isinstance(x, tuple) else x for x in t[1:])
     _memo[id(t)] = (t, r)
     return r
+
+
+def assume(t, decide, _memo=None):
+    """rebuild t with every condition for which decide(cond) returns True/False replaced by that
+    truth value (phi nodes collapse to the chosen branch; and/or/not fold)."""
+    if _memo is None:
+        _memo = {}
+    if not isinstance(t, tuple) or not t:
+        return t
+    k = id(t)
+    if k in _memo:
+        return _memo[k][1]
+    h = t[0]
+    if h in ("cmp", "and", "or", "not"):
+        d = decide(t)
+        if d is not None:
+            r = ("bool", bool(d))
+            _memo[k] = (t, r)
+            return r
+    parts = tuple(assume(x, decide, _memo) for x in t)
+    if h == "phi":
+        r = T.phi(parts[1], parts[2], parts[3])
+    elif h == "not":
+        r = T.lnot(parts[1])
+    elif h == "and":
+        if any(x == ("bool", False) for x in parts[1:]):
+            r = ("bool", False)
+        else:
+            r = T.land(*parts[1:])
+    elif h == "or":
+        if any(x == ("bool", True) for x in parts[1:]):
+            r = ("bool", True)
+        else:
+            rest = tuple(x for x in parts[1:] if x != ("bool", False))
+            r = ("bool", False) if not rest else rest[0] if len(rest) == 1 else ("or",) + rest
+    elif h == "add":
+        r = T.add(*parts[1:])
+    elif h == "mul":
+        r = T.mul(*parts[1:])
+    else:
+        r = parts
+    _memo[k] = (t, r)
+    return r
